@@ -1,4 +1,186 @@
 import Driver.Common
+import AnyioModel.Iter.Itertools
+import AnyioModel.Iter.Reduce
 
-/-- placeholder driver: replies `unimplemented` to every request -/
-def main : IO Unit := Driver.serve () (fun s _ => (s, "unimplemented"))
+/-!
+Line protocol of `md_iter` (stateless).  A request is
+
+    <function> <arg> ... : <int> ... [; <int> ... ;]
+
+arguments are integers, `N` (Python `None`) or callback names; functions over several
+iterables terminate every iterable with `;`.  The reply evaluates BOTH definitions:
+
+    impl=<result> spec=<result>      result = ok:[v,v,...] | ok:v | err:TypeError | err:ValueError
+
+values are integers or tuples `(v,v,...)`.
+-/
+namespace Driver.Iter
+open AnyioModel.Iter
+
+inductive Val where
+  | i (n : Int)
+  | t (xs : List Val)
+
+partial def Val.render : Val → String
+  | .i n => toString n
+  | .t xs => "(" ++ ",".intercalate (xs.map Val.render) ++ ")"
+
+def errStr : ErrKind → String
+  | .typeError => "err:TypeError"
+  | .valueError => "err:ValueError"
+
+def renderRes {β : Type} (f : β → Val) : Except ErrKind (List β) → String
+  | .error e => errStr e
+  | .ok xs => "ok:[" ++ ",".intercalate (xs.map fun x => (f x).render) ++ "]"
+
+def renderOne : Except ErrKind Int → String
+  | .error e => errStr e
+  | .ok v => "ok:" ++ toString v
+
+def vInt (n : Int) : Val := .i n
+def vList (xs : List Int) : Val := .t (xs.map .i)
+def vPair (p : Int × Int) : Val := .t [.i p.1, .i p.2]
+def vGroup (p : Int × List Int) : Val := .t [.i p.1, vList p.2]
+
+def both (a b : String) : String := s!"impl={a} spec={b}"
+
+/-- `N` -> none, integer -> some; anything else fails -/
+def optInt (s : String) : Option (Option Int) :=
+  if s = "N" then some none else s.toInt?.map some
+
+def ints (ws : List String) : Option (List Int) := ws.mapM String.toInt?
+
+/-- `a b ; ; c ;` -> [[a,b],[],[c]] -/
+def lists (ws : List String) : Option (List (List Int)) :=
+  let rec go (cur : List Int) (acc : List (List Int)) : List String → Option (List (List Int))
+    | [] => if cur.isEmpty then some acc.reverse else none
+    | w :: rest =>
+      if w = ";" then go [] (cur.reverse :: acc) rest
+      else match w.toInt? with
+        | none => none
+        | some n => go (n :: cur) acc rest
+  go [] [] ws
+
+def binop : String → Option (Int → Int → Int)
+  | "add" => some (· + ·)
+  | "sub" => some (· - ·)
+  | "mul" => some (· * ·)
+  | "max" => some max
+  | "lin" => some fun a b => 2 * a + b
+  | _ => none
+
+def pred : String → Option (Int → Bool)
+  | "lt1" => some (· < 1)
+  | "lt2" => some (· < 2)
+  | "even" => some fun x => x % 2 = 0
+  | "eq1" => some (· = 1)
+  | "true" => some fun _ => true
+  | "false" => some fun _ => false
+  | _ => none
+
+def keyf : String → Option (Int → Int)
+  | "none" => some id          -- key=None
+  | "id" => some id
+  | "parity" => some (· % 2)
+  | "const" => some fun _ => 0
+  | _ => none
+
+def starf : String → Option (List Int → Int)
+  | "sum" => some List.sum
+  | "len" => some fun a => a.length
+  | "first" => some fun a => a.headD 0
+  | _ => none
+
+def splitColon (ws : List String) : List String × List String :=
+  (ws.takeWhile (· ≠ ":"), (ws.dropWhile (· ≠ ":")).drop 1)
+
+def handleReq (name : String) (args body : List String) : Option String :=
+  match name, args with
+  | "accumulate", [op, ini] => do
+    let f ← binop op; let i ← optInt ini; let xs ← ints body
+    some (both (renderRes vInt (impl_accumulate f i xs)) (renderRes vInt (spec_accumulate f i xs)))
+  | "batched", [n, strict] => do
+    let n ← optInt n; let st ← Driver.parseBool strict; let xs ← ints body
+    some (both (renderRes vList (impl_batched n st xs)) (renderRes vList (spec_batched n st xs)))
+  | "chain", [] => do
+    let xss ← lists body
+    some (both (renderRes vInt (impl_chain xss)) (renderRes vInt (spec_chain xss)))
+  | "chain_from_iterable", [] => do
+    let xss ← lists body
+    some (both (renderRes vInt (impl_chain_from_iterable xss))
+      (renderRes vInt (spec_chain_from_iterable xss)))
+  | "combinations", [r] => do
+    let r ← optInt r; let xs ← ints body
+    some (both (renderRes vList (impl_combinations std_combinations r xs))
+      (renderRes vList (spec_combinations std_combinations r xs)))
+  | "combinations_with_replacement", [r] => do
+    let r ← optInt r; let xs ← ints body
+    some (both
+      (renderRes vList (impl_combinations_with_replacement std_combinations_with_replacement r xs))
+      (renderRes vList (spec_combinations_with_replacement std_combinations_with_replacement r xs)))
+  | "permutations", [r] => do
+    let r ← optInt r; let xs ← ints body
+    some (both (renderRes vList (impl_permutations std_permutations r xs))
+      (renderRes vList (spec_permutations std_permutations r xs)))
+  | "product", [r] => do
+    let r ← optInt r; let xss ← lists body
+    some (both (renderRes vList (impl_product std_product r xss))
+      (renderRes vList (spec_product std_product r xss)))
+  | "compress", [] => do
+    match ← lists body with
+    | [ds, ss] =>
+      let sb : List Bool := ss.map fun s => decide (s ≠ 0)
+      some (both (renderRes vInt (impl_compress ds sb)) (renderRes vInt (spec_compress ds sb)))
+    | _ => none
+  | "count", [tk, start, step] => do
+    let tk ← tk.toNat?; let a ← start.toInt?; let b ← step.toInt?
+    some (both (renderRes vInt (impl_count tk a b)) (renderRes vInt (spec_count tk a b)))
+  | "cycle", [tk] => do
+    let tk ← tk.toNat?; let xs ← ints body
+    some (both (renderRes vInt (impl_cycle tk xs)) (renderRes vInt (spec_cycle tk xs)))
+  | "repeat", [tk, x, times] => do
+    let tk ← tk.toNat?; let x ← x.toInt?; let t ← optInt times
+    some (both (renderRes vInt (impl_repeat tk x t)) (renderRes vInt (spec_repeat tk x t)))
+  | "dropwhile", [p] => do
+    let p ← pred p; let xs ← ints body
+    some (both (renderRes vInt (impl_dropwhile p xs)) (renderRes vInt (spec_dropwhile p xs)))
+  | "filterfalse", [p] => do
+    let p ← pred p; let xs ← ints body
+    some (both (renderRes vInt (impl_filterfalse p xs)) (renderRes vInt (spec_filterfalse p xs)))
+  | "takewhile", [p] => do
+    let p ← pred p; let xs ← ints body
+    some (both (renderRes vInt (impl_takewhile p xs)) (renderRes vInt (spec_takewhile p xs)))
+  | "groupby", [k] => do
+    let k ← keyf k; let xs ← ints body
+    some (both (renderRes vGroup (impl_groupby k xs)) (renderRes vGroup (spec_groupby k xs)))
+  | "islice", as => do
+    let as ← as.mapM optInt; let xs ← ints body
+    some (both (renderRes vInt (impl_islice as xs)) (renderRes vInt (spec_islice as xs)))
+  | "pairwise", [] => do
+    let xs ← ints body
+    some (both (renderRes vPair (impl_pairwise xs)) (renderRes vPair (spec_pairwise xs)))
+  | "starmap", [f] => do
+    let f ← starf f; let xss ← lists body
+    some (both (renderRes vInt (impl_starmap f xss)) (renderRes vInt (spec_starmap f xss)))
+  | "zip_longest", [fill] => do
+    let fill ← fill.toInt?; let xss ← lists body
+    some (both (renderRes vList (impl_zip_longest fill xss))
+      (renderRes vList (spec_zip_longest fill xss)))
+  | "reduce", [op, ini, src] => do
+    let f ← binop op; let i ← optInt ini; let xs ← ints body
+    let s ← (if src = "sync" then some Src.sync else if src = "async" then some Src.async else none)
+    some (both (renderOne (impl_reduce s f i xs)) (renderOne (spec_reduce f i xs)))
+  | _, _ => none
+
+def handle (s : Unit) (ws : List String) : Unit × String :=
+  match ws with
+  | [] => (s, "bad-op")
+  | name :: rest =>
+    let (args, body) := splitColon rest
+    match handleReq name args body with
+    | some r => (s, r)
+    | none => (s, "bad-op")
+
+end Driver.Iter
+
+def main : IO Unit := Driver.serve () Driver.Iter.handle
